@@ -46,6 +46,8 @@ for op, txt in (("true", "add"), ("false", "sub")):
 # ----------------------------------------------------------------------------- replay-only bodies (engine M/D counterexamples)
 for k in (0, 1, 2):
     add(H("REPLAY", "m_replay_percent_rule_%d" % k, "verif_k::c05::m_replay_percent_rule", str(k), kani=False))
+for nm in ("find_numbers_percent", "find_total_from_percent", "number_calc", "calc_percent", "convert_money", "money_money", "money_number"):
+    add(H("REPLAY", "m_replay_" + nm, "verif_k::c05::m_replay_" + nm, "", kani=False))
 
 # ----------------------------------------------------------------------------- driver self tests
 add(H("SELF", "selftest_pass", "verif_k::c09::selftest_pass", "", timeout=120, about="driver self-test (passes)"))
